@@ -92,8 +92,11 @@ class FiniteRandomVariable(SingleSweep):
         prev_state = random.getstate()
         # Generate self.length random values starting with the seed
         random.seed(self.seed)
+        # In sorted order of the values: equal sweeps (equality does not look at the order in which
+        # the distribution was written, and wire formats do not keep it) enumerate the same points.
+        items = sorted(self.distribution.items())
         random_values = random.choices(
-            list(self.distribution.keys()), list(self.distribution.values()), k=self.length
+            [value for value, _ in items], [weight for _, weight in items], k=self.length
         )
         # Restore the RNG state
         random.setstate(prev_state)
